@@ -1,3 +1,4 @@
+mod c19;
 mod event;
 mod gen;
 mod refmodel;
